@@ -23,6 +23,8 @@ import threading
 _RealThread = threading.Thread
 
 EPOCH = 1_000_000_000.0  # 2001-09-09T01:46:40Z
+import os as _os
+DEBUG_YIELDS = bool(_os.environ.get("VERIF_DEBUG_YIELDS"))
 
 
 class SimAbort(BaseException):
@@ -298,6 +300,8 @@ class Sim:
         if me.killed:
             raise SimCrash()
         self.steps += 1
+        if DEBUG_YIELDS:
+            self.history.append(("y", me.id, kind, self.countdown))
         if self.steps > self.step_cap:
             self.aborted = "step-cap"
             raise SimAbort()
